@@ -244,6 +244,13 @@ def _worker(args):
     return out
 
 
+def _replay_known(modname: str):
+    from . import findings
+
+    mod = importlib.import_module(modname)
+    return findings.Known(mod.PROPERTY).replay_open(mod)
+
+
 def run_property(modname: str, tier: str, seed: int, workers: int) -> int:
     """Run all sub-checks of a property; write evidence; return the exit code."""
     from . import findings
@@ -253,8 +260,20 @@ def run_property(modname: str, tier: str, seed: int, workers: int) -> int:
     prop = mod.PROPERTY
     known = findings.Known(prop)
 
-    # 1. replay the canonical reproducers of open findings (plain oracle)
-    known_lines = known.replay_open(mod)
+    # 1. replay the canonical reproducers of open findings (plain oracle), in a child process so that
+    #    the parent (which the search workers are forked from) stays pristine
+    if known.open:
+        ctx0 = multiprocessing.get_context("fork")
+        with ctx0.Pool(1, maxtasksperchild=1) as pool0:
+            known_lines = pool0.apply(_replay_known, (modname,))
+    else:
+        known_lines = []
+
+    # stale replay files of this property would be confusing: start clean
+    import glob
+
+    for old_replay in glob.glob(os.path.join(REPLAY_DIR, f"{prop}-*.json")):
+        os.unlink(old_replay)
 
     # 2. the generated search
     subs = mod.plan(tier)
